@@ -33,6 +33,13 @@ CASES = [
     ('switch prefers a later case over an earlier default', 'switch 9 do { default { "def" }; case 9: { "nine" } }', 'nine'),
     ('case outside a switch is reported', '{ case 1 } except__ { }; 7', '7'),
     ('default outside a switch is reported', '{ default { 1 } } except__ { }; 7', '7'),
+    ('if true then runs the block', 'private _r = 0; if (true) then { _r = 1 }; _r', '1'),
+    ('if false then runs nothing', 'private _r = 0; if (false) then { _r = 1 }; _r', '0'),
+    ('if then else takes the first block on true', 'if (true) then { "a" } else { "b" }', 'a'),
+    ('if then else takes the second block on false', 'if (false) then { "a" } else { "b" }', 'b'),
+    ('if then with an array of the wrong size is reported', '{ if (true) then [{1}] } except__ { }; 7', '7'),
+    ('exitWith leaves the scope with the value of its block', 'call { if (true) exitWith { "out" }; "in" }', 'out'),
+    ('exitWith with a false condition goes on', 'call { if (false) exitWith { "out" }; "in" }', 'in'),
 ]
 def search(sqfvm):
     for (name, code, want) in CASES:
